@@ -272,6 +272,7 @@ type Run struct {
 	trusted         map[string]bool
 	modCache        map[*ssa.Function]*ModSet
 	pathsCut        bool
+	noInterfere     bool
 	sliceWriteCache map[*ssa.Function]bool
 	pruneAll        bool // contract directive "prune"
 	inlined         map[string]bool
@@ -284,6 +285,7 @@ type Run struct {
 	captureReader   *ssa.Function   // capture check: the callback whose reads decide whether a later field store matters
 	kindFilter      map[string]bool // sweeps: obligation kinds to generate (nil: all)
 	sendable        map[string]bool
+	mutFields       []mutField // fields assigned outside construction (interference at blocking receives)
 	ctxInner        map[string]Val
 	mapZero         map[string]string // Mv array name -> zero term of the element type
 	inInit          bool
@@ -493,4 +495,45 @@ func sortedKeys[M ~map[string]V, V any](m M) []string {
 	}
 	sort.Strings(ks)
 	return ks
+}
+
+type mutField struct {
+	ty  types.Type
+	idx int
+}
+
+// interfere: a blocking receive is a point where other goroutines have run.
+// Unguarded fields that some statement assigns outside construction hold
+// unknown values afterwards (guarded fields are re-read under their lock; the
+// monitor rule covers them). Not a write of the function under contract.
+func (x *Run) interfere(fr *Frame, st *State) {
+	if fr.inPure() || fr.inSpec() || x.noInterfere {
+		return
+	}
+	for _, mf := range x.mutFields {
+		if x.spec.guardOf(mf.ty, mf.idx) >= 0 {
+			continue
+		}
+		stt, _ := structOf(mf.ty)
+		ft := stt.Field(mf.idx).Type()
+		if strings.HasPrefix(ft.String(), "sync.") {
+			continue
+		}
+		// configuration objects and protocol messages are built (loaded,
+		// completed, decoded) before they are shared and not assigned afterwards:
+		// assumed (A-CONFIG), listed
+		if tk := typeKey(mf.ty); strings.HasPrefix(tk, frpPrefix+"/pkg/config/") || strings.HasPrefix(tk, frpPrefix+"/pkg/msg.") {
+			continue
+		}
+		name := fieldArrayName(mf.ty, mf.idx)
+		x.mu.Lock()
+		s, ok := x.arrSorts[name]
+		x.mu.Unlock()
+		if !ok {
+			continue
+		}
+		st.heap[name] = x.d.fresh(name+"$i", s)
+		delete(st.lit, name)
+	}
+	st.trace = append(st.trace, "sync")
 }
